@@ -37,13 +37,37 @@ type tracer struct {
 	stats map[string]int
 }
 
+// progress counts trace lines; the watchdog (real time, outside every synctest bubble) ends the run when it stops
+// moving: a goroutine of the library that spins without ever blocking is invisible to synctest's deadlock detection
+var progress atomic.Uint64
+
+func watchdog(limit time.Duration) {
+	last, since := progress.Load(), time.Now()
+	for {
+		time.Sleep(2 * time.Second)
+		if p := progress.Load(); p != last {
+			last, since = p, time.Now()
+			continue
+		}
+		if time.Since(since) > limit {
+			fmt.Fprintf(os.Stderr, "panic: no progress for %v of real time: livelock (a goroutine of the library spins without blocking) or a harness call that never returns\n", limit)
+			os.Exit(3)
+		}
+	}
+}
+
 func (t *tracer) line(s string) {
+	progress.Add(1)
 	fmt.Fprintln(t.w, s)
 	if *flagOnly >= 0 {
 		t.w.Flush()
 	}
 }
-func (t *tracer) pending(s string) { fmt.Fprintln(t.w, "(pending "+s+")"); t.w.Flush() }
+func (t *tracer) pending(s string) {
+	progress.Add(1)
+	fmt.Fprintln(t.w, "(pending "+s+")")
+	t.w.Flush()
+}
 
 func TestEngine(t *testing.T) {
 	if *flagEngine == "" {
@@ -54,6 +78,7 @@ func TestEngine(t *testing.T) {
 		t.Fatal(err)
 	}
 	tr := &tracer{w: bufio.NewWriterSize(f, 1<<20), stats: map[string]int{}}
+	go watchdog(90 * time.Second)
 	defer func() {
 		tr.w.Flush()
 		f.Close()
